@@ -1185,7 +1185,7 @@ static void app_set_servers_now(int arg, int quiescent)
           vh_trace("set_servers '%s' -> %d; list now '%s'", csv, x_rc, now_csv ? now_csv : "(null)");
           ares_free_string(now_csv);
         }
-        if (x_rc == ARES_SUCCESS && n > 0 && (app_cfg.flags & ARES_FLAG_PRIMARY)) {
+        if (x_rc == ARES_SUCCESS && n > 0 && quiescent && (app_cfg.flags & ARES_FLAG_PRIMARY)) {
           /* ARES_FLAG_PRIMARY: "only query the first server in the list" - the first of the list just given, whatever
            * the servers' failure counts */
           char  want1[256];
